@@ -1060,7 +1060,14 @@ def _site(ex, fmt):
             name = own[-1]
         if frames:
             anyframe = frames[-1].name
-    return (name or anyframe or "?"), type(chain[-1]).__name__
+    et = type(chain[-1]).__name__
+    last = traceback.extract_tb(chain[-1].__traceback__)
+    if last and last[-1].filename.endswith("/cccc/cccc.py") and last[-1].name in (
+            "open", "close", "rwInt", "rwLong", "rwFloat", "rwDouble", "rwString"):
+        # the record reader itself stumbled (count mismatch, unparseable text, short read): which of these it is
+        # depends on the bytes it happened to land on, so they are one class
+        et = "misframed"
+    return (name or anyframe or "?"), et
 
 
 def _measure(fn, enc):
@@ -1156,15 +1163,19 @@ def run_format_case(case, seed, scratch, calls=True):
     """-> list of (key, text, extra): the first divergence per encoding.  Keys name format, failing stage and
     call site / record tag / datum."""
     fmt = case["fmt"]
+    cls = case.get("cls", "any")     # input class of the header (CcccFormats!ClassOf): part of every key
     ad = ADAPTERS[fmt](case)
     out = []
     seen_bin = set()
+    stages = {}
     for enc in case["encs"]:
         f1, f2 = scratch.paths
         found = []
+        stages[enc] = "build"
 
         def add(stage, what, text):
-            found.append(("%s:%s:%s" % (fmt, stage, what), "%s %s: %s" % (fmt, "binary" if enc == "bin" else "ASCII", text)))
+            found.append(("%s:%s:%s:%s" % (fmt, stage, what, cls),
+                          "%s %s [%s]: %s" % (fmt, "binary" if enc == "bin" else "ASCII", cls, text)))
 
         try:
             c, vals = ad.build(seed)
@@ -1175,9 +1186,10 @@ def run_format_case(case, seed, scratch, calls=True):
             ad.write(c, f1, enc)
         except Exception as ex:  # noqa: BLE001
             site, et = _site(ex, fmt)
-            add("write-raises", site, "writer raised %s in %s" % (et, site))
+            add("write-raises", site + ":" + et, "writer raised %s in %s" % (et, site))
             stop = True
         if not stop:
+            stages[enc] = "written"
             buf, frames, prob = _measure(f1, enc)
             d = _frames_diff(case, enc, frames, prob)
             if d:
@@ -1192,9 +1204,10 @@ def run_format_case(case, seed, scratch, calls=True):
                 c2 = ad.read(f1, enc)
             except Exception as ex:  # noqa: BLE001
                 site, et = _site(ex, fmt)
-                add("read-raises", site, "reader raised %s in %s on the file the writer produced" % (et, site))
+                add("read-raises", site + ":" + et, "reader raised %s in %s on the file the writer produced" % (et, site))
                 stop = True
         if not stop:
+            stages[enc] = "read"
             lost = set()
             for path, d in ad.compare(c2, vals, enc):
                 what = re.sub(r":\d+:", ":", path)
@@ -1210,9 +1223,10 @@ def run_format_case(case, seed, scratch, calls=True):
                     add("rewrite-differs", "bytes", "writing what was read differs from the file at offset %d (lengths %d / %d)" % (pos, len(buf), len(buf2)))
             except Exception as ex:  # noqa: BLE001
                 site, et = _site(ex, fmt)
-                add("rewrite-raises", site, "writing what was read raised %s in %s" % (et, site))
+                add("rewrite-raises", site + ":" + et, "writing what was read raised %s in %s" % (et, site))
             stop = any(":rewrite-" in k for k, _ in found)
         if not stop:
+            stages[enc] = "rewritten"
             if calls:
                 # the same write and read again with call-logging records: field kinds and counts per record
                 c3, _ = ad.build(seed)
@@ -1234,12 +1248,14 @@ def run_format_case(case, seed, scratch, calls=True):
                     raise
                 except Exception as ex:  # noqa: BLE001
                     raise RuntimeError("instrumented run behaves differently from the plain one: %s: %s" % (type(ex).__name__, ex)) from ex
+            stages[enc] = "complete"
         for key, text in found:
             if enc == "bin":
                 seen_bin.add(key)
             elif key not in seen_bin and not key.startswith("ascii:"):
                 key = key + ":ascii-only"
             out.append((key, text, {"enc": enc}))
+    run_format_case.last_stages = stages
     return out
 
 
@@ -1338,7 +1354,7 @@ def run_fixture(fx, scratch):
 
     def raised(stage, ex, e):
         site, et = _site(ex, fmt)
-        key = "%s:%s-raises:%s%s" % (fmt, stage, site, ":ascii-only" if e == "asc" else "")
+        key = "fixture:%s:%s-raises:%s:%s%s" % (fx["name"], stage, site, et, ":ascii-only" if e == "asc" else "")
         out.append((key, "fixture %s: %s (%s) raised %s in %s" % (fx["name"], stage, "ASCII" if e == "asc" else "binary", et, site)))
 
     try:
